@@ -111,7 +111,7 @@ def _hard_target(draw, c, s, from_year, zero_progs=()):
         # relative to the value under the caller's instructions; with unfunded programs that value is exactly 0 for their spending and for the flows only they drive
         m["name"] = draw(st.sampled_from(list(zero_progs) * 3 + c["flows"])) if zero_case else _quantity(draw, c)
         m["target_type"] = draw(st.sampled_from(["frac", "frac", "frac", "abs"]))
-        m["amount"] = draw(st.sampled_from([0.0, 0.0, 0.001, 0.05, 0.5]))
+        m["amount"] = draw(st.sampled_from([0.0, 0.0, 0.0, 0.001, 0.05, 0.5]))
     spend = m["name"] in [p for p, _ in c["progs"]]
     m["t"] = _tspec(draw, s, from_year)
     m["pops"] = None if spend else _pops(draw, c)
